@@ -76,7 +76,14 @@ var interestingInts = []int64{0, 1, -1, 2, -2, 3, 7, 10, -10, 100, 255, 256, -12
 	4611686018427387904, 3037000500, -3037000500}
 
 func genInt64(t *rapid.T, label string) int64 {
-	switch uni(t, label+"_kind", 0, 3) {
+	switch uni(t, label+"_kind", 0, 4) {
+	case 4:
+		// the neighbourhood of every power of two, both signs (127, 128, 129, -32769, ...)
+		v := int64(1)<<uint(uni(t, label+"_pow", 0, 62)) + int64(uni(t, label+"_off", -2, 2))
+		if rapid.Bool().Draw(t, label+"_neg") {
+			v = -v
+		}
+		return v
 	case 0:
 		return rapid.SampledFrom(interestingInts).Draw(t, label)
 	case 1:
